@@ -654,6 +654,88 @@ impl Family for Rows {
     }
 }
 
+/// what a client makes of a string cell: it decodes the bytes in the character set the column
+/// definition names. UTF-8 families and `binary` give the bytes back as written; for a single-byte
+/// character set every byte is one character. None = a character set this harness does not know
+/// (undecided, never an alarm).
+fn client_text(bytes: &[u8], charset: u16) -> Option<String> {
+    const UTF8: [u16; 6] = [33, 45, 46, 63, 76, 83];
+    const SINGLE_BYTE: [u16; 14] = [5, 8, 9, 11, 15, 26, 31, 47, 48, 49, 51, 65, 92, 94];
+    if UTF8.contains(&charset) || (192..=247).contains(&charset) || (255..=323).contains(&charset) {
+        return String::from_utf8(bytes.to_vec()).ok();
+    }
+    if SINGLE_BYTE.contains(&charset) {
+        return Some(bytes.iter().map(|b| *b as char).collect());
+    }
+    None
+}
+
+/// text beyond ASCII, written as `&str`, to clients that answered the greeting in every way the
+/// harness knows (one of them names a latin1 collation): what the client decodes - in the
+/// character set the column definition names - must be the string written
+struct TextBeyondAscii;
+const TEXTS: [&str; 8] = ["plain", "J\u{fc}rgen", "na\u{ef}ve caf\u{e9}", "\u{65e5}\u{672c}\u{8a9e}", "\u{1f600} ok", "\u{df}", "a\u{300}", "\u{fffd}"];
+impl Family for TextBeyondAscii {
+    fn name(&self) -> String {
+        "text-beyond-ascii-x-handshakes".into()
+    }
+    fn len(&self) -> u64 {
+        TEXTS.len() as u64 * N_HANDSHAKE_VARIANTS * 3
+    }
+    fn run(&self, idx: u64, st: &mut Stats) -> Result<(), Violation> {
+        let d = digits(idx, &[TEXTS.len() as u64, N_HANDSHAKE_VARIANTS, 3]);
+        let text = TEXTS[d[0] as usize];
+        let (hs, hs_what) = handshake_variant(d[1]);
+        let ty = [ColumnType::MYSQL_TYPE_VAR_STRING, ColumnType::MYSQL_TYPE_STRING, ColumnType::MYSQL_TYPE_VARCHAR][d[2] as usize];
+        st.nontrivial += 1;
+        st.bump("texts_beyond_ascii");
+        let cols = Arc::new(vec![col("s", ty, ColumnFlags::empty()), col("t", ty, ColumnFlags::empty())]);
+        let prog = Arc::new(vec![WOp::Start(cols), WOp::WriteCol(Val::Str(text.into())), WOp::WriteCol(Val::OptStr(Some(text.into()))), WOp::EndRow, WOp::Finish]);
+        let mut conv = Conv::new(vec![q(b"x"), ping()]);
+        conv.handshake = hs;
+        let s = conv.stream();
+        let stream = Arc::new(s.bytes);
+        let mut sim = sim_for(&stream, vec![]);
+        sim.log_ops = false;
+        let behave = Box::new(move |_: usize, cb: &Cb| match cb {
+            Cb::Query(_) => Behavior::Prog(prog.clone()),
+            _ => Behavior::Silent,
+        });
+        let o = run_conn(sim, ConnCfg::new(behave));
+        st.transitions += 2;
+        let what = format!("{:?} as &str and Option<String> into {:?} columns [{}]", text, ty, hs_what);
+        if let ConnResult::Panic(l, m) = &o.res {
+            return Err(Violation::new(panic_key(l, m), format!("{}: run_on panicked at {}: {}", what, l, m)));
+        }
+        if !o.res.is_ok() {
+            return Err(Violation::new("result-not-ok", format!("{}: run_on returned {}", what, o.res.short())));
+        }
+        let dd = decode_all(delivered(&o), &conv, &s.last_seq, 2, false).map_err(|e| Violation::new("reply-decode", format!("{}: {}", what, e)))?;
+        match &dd.replies[0][..] {
+            [Unit::ResultSet { cols, rows, end: Ok(_) }] if rows.len() == 1 && cols.len() == 2 => {
+                for j in 0..2 {
+                    let bytes = match &rows[0][j] {
+                        Cell::Text(b) => b,
+                        other => return Err(Violation::new("cell-differs", format!("{}: cell {} decodes as {:?}", what, j, other))),
+                    };
+                    match client_text(bytes, cols[j].charset) {
+                        Some(t) if t == text => {}
+                        Some(t) => return Err(Violation::new("text-differs-in-the-declared-character-set", format!("{}: the column definition names character set {}, in which the client reads {:?}", what, cols[j].charset, t))),
+                        None if text.is_ascii() && bytes == text.as_bytes() => {}
+                        None => st.bump("undecided_character_sets"),
+                    }
+                }
+                Ok(())
+            }
+            other => Err(Violation::new("rows-differ", format!("{}: reply is {:?}", what, other.iter().map(|u| format!("{:?}", u).chars().take(80).collect::<String>()).collect::<Vec<_>>()))),
+        }
+    }
+    fn describe(&self, idx: u64) -> J {
+        let d = digits(idx, &[TEXTS.len() as u64, N_HANDSHAKE_VARIANTS, 3]);
+        json!({"text": TEXTS[d[0] as usize], "handshake": handshake_variant(d[1]).1, "column_type": d[2]})
+    }
+}
+
 /// a text value whose encoding is refused, followed by a replacement for the same column: the
 /// cells written before and after must arrive unchanged
 struct RecoverText;
@@ -854,6 +936,7 @@ pub fn build(quick: bool) -> Check {
         Box::new(Temporal { quick }),
         Box::new(Bytes { lens: byte_lengths(quick) }),
         Box::new(Rows { pal, small }),
+        Box::new(TextBeyondAscii),
         Box::new(RecoverText),
         Box::new(SeamHistories::new()),
         Box::new(super::c07::TemporalEdges { bin: false }),
